@@ -574,9 +574,21 @@ def _constant_factor(expr: Expression) -> float | None:
     return None
 
 
+def _dot_product_terms(expr: Expression) -> list[BinaryOp]:
+    """Element-wise products ``a_i * b_i`` of a DotProduct.
+
+    A DotProduct of degree <= 1 (one side is a vector of constants, e.g.
+    ``x.dot(VectorExpression([Constant(1), Constant(2)]))``) is a linear
+    expression; its coefficients are those of the sum of these products.
+    """
+    left = getattr(expr.left, "_variables", None) or expr.left._expressions  # type: ignore[attr-defined]
+    right = getattr(expr.right, "_variables", None) or expr.right._expressions  # type: ignore[attr-defined]
+    return [BinaryOp(a, b, "*") for a, b in zip(left, right)]
+
+
 def _extract_coefficient_impl(expr: Expression, var: Variable) -> float:
     """Recursive coefficient extraction."""
-    from optyx.core.vectors import LinearCombination, VectorSum
+    from optyx.core.vectors import DotProduct, LinearCombination, VectorSum
 
     # Constant - contributes 0 to variable coefficient
     if isinstance(expr, Constant):
@@ -610,6 +622,12 @@ def _extract_coefficient_impl(expr: Expression, var: Variable) -> float:
             if v.name == var.name:
                 return 1.0
         return 0.0
+
+    # DotProduct with a constant side: sum of element-wise products
+    if isinstance(expr, DotProduct):
+        return sum(
+            _extract_coefficient_impl(term, var) for term in _dot_product_terms(expr)
+        )
 
     # Binary operations
     if isinstance(expr, BinaryOp):
@@ -700,7 +718,10 @@ def extract_constant_term(expr: Expression) -> float:
 
 def _extract_constant_impl(expr: Expression) -> float:
     """Recursive constant term extraction."""
-    from optyx.core.vectors import LinearCombination, VectorSum
+    from optyx.core.vectors import DotProduct, LinearCombination, VectorSum
+
+    if isinstance(expr, DotProduct):
+        return sum(_extract_constant_impl(term) for term in _dot_product_terms(expr))
 
     if isinstance(expr, Constant):
         return float(expr.value)
@@ -943,10 +964,21 @@ def _extract_all_coefficients_impl(
         result: Output array to accumulate coefficients into.
         multiplier: Current coefficient multiplier from parent expressions.
     """
-    from optyx.core.vectors import LinearCombination, VectorSum, VectorVariable
+    from optyx.core.vectors import (
+        DotProduct,
+        LinearCombination,
+        VectorSum,
+        VectorVariable,
+    )
 
     # Constant - no variable coefficients
     if isinstance(expr, Constant):
+        return
+
+    # DotProduct with a constant side: sum of element-wise products
+    if isinstance(expr, DotProduct):
+        for term in _dot_product_terms(expr):
+            _extract_all_coefficients_impl(term, var_index, result, multiplier)
         return
 
     # Variable - add coefficient at this variable's index
